@@ -13,8 +13,9 @@ BOOLS = ['b0']
 LISTS = ['l0', 'l1']
 SLISTS = ['ls0']
 DICTS = ['d0']
+TUPLES = ['t0']
 INT_LITS = ['0', '1', '2', '3', '5', '7', '10', '12', '-1', '-4', '100']
-STR_LITS = ["'a'", "'abc'", "'Hello World'", "''", "'x y z'", "'42'", "'Py'", "'naïve'", "'tab\\there'", "'line\\nbreak'"]
+STR_LITS = ["'a'", "'abc'", "'Hello World'", "''", "'x y z'", "'42'", "'Py'", "'naïve'", "'tab\\there'", "'line\\nbreak'", "'50%\\rdone'", "'crlf\\r\\nend'", "'ff\\x0cvt\\x0b'"]
 SMALL = ['1', '2', '3']
 PROMPTS = ["'«p1»'", "'«p2» '", "'«p3»: '"]   # every input() carries a marked prompt so that echoes can be removed
 
@@ -261,8 +262,26 @@ def _ind(text, n=1):
 @st.composite
 def statement(draw, depth=2, in_loop=False, allow_input=True):
     body = lambda **kw: draw(block(depth - 1, allow_input=allow_input, **kw))
-    top = 21 if depth <= 0 else 33
+    top = 21 if depth <= 0 else 35
     k = draw(st.integers(0, top))
+    if k in (34, 35) or (k == 21 and depth <= 0 and draw(st.booleans())):
+        # tuples: literals, concatenation of tuples that come from different places, unpacking, indexing
+        return draw(st.sampled_from([
+            't0 = (t0 + (%s,))[:30]' % draw(int_expr(1)),
+            't0 = (t0[1:] + (4,))[:30]',
+            't0 = divmod(%s, 3) + (1,)' % draw(int_expr(1)),
+            'for pr in enumerate(l0[:4]):\n    t0 = pr + (b0,)',
+            'def grow(p):\n    return p + (0,)\nt0 = grow(t0)[:30]',
+            'i2 = len(t0)',
+            'print(t0, t0[:2], t0 * 2 if len(t0) < 5 else t0[-1])',
+            't0 = tuple(l0[:5])',
+            't0 = pair(i0, s0)[:2] + (i1,)',
+            'q0, q1 = (t0 + (1, 2))[:2]\nprint(q0, q1)',
+            't0 = (i0, s0, (i1, b0))',
+            'if t0 and isinstance(t0[0], int):\n    i2 = t0[0] + 1',
+            'l1 = list(t0)[:10]',
+            'print(t0 == tuple(l0), (1, 2) < (1, 3), t0.count(1) if t0 else -1)',
+        ]))
     if k <= 1:
         return '%s = %s' % (draw(st.sampled_from(INTS)), draw(int_expr()))
     if k == 2:
@@ -281,7 +300,7 @@ def statement(draw, depth=2, in_loop=False, allow_input=True):
         return '%s, %s = %s, %s' % (a, b, b, draw(int_expr(1)))
     if k in (8, 9):
         exprs = [draw(st.one_of(int_expr(), str_expr(), bool_expr(1), list_expr(1))) for _ in range(draw(st.integers(0, 3)))]
-        extra = draw(st.sampled_from(['', '', ", sep='-'", ", end='!\\n'", ", sep='', end=''", ", end=' '"]))
+        extra = draw(st.sampled_from(['', '', ", sep='-'", ", end='!\\n'", ", sep='', end=''", ", end=' '", ", end='\\r'", ", sep='\\r\\n'", ", end='\\r\\n'"]))
         if not exprs:
             extra = extra.lstrip(', ')
         return 'print(%s%s)' % (', '.join(exprs), extra)
@@ -313,15 +332,15 @@ def statement(draw, depth=2, in_loop=False, allow_input=True):
         return 'f0 = lambda x: x + %s\n%s = f0(%s)' % (draw(st.sampled_from(SMALL)), draw(st.sampled_from(INTS)), draw(int_expr(1)))
     if k == 19:
         return '%s = math.%s' % (draw(st.sampled_from(INTS)), draw(st.sampled_from(['floor(i0 / 3)', 'ceil(i1 / 4)', 'isqrt(abs(i2))', 'gcd(i0, 12)'])))
-    if k == 20:
-        return "assert isinstance(%s, int), 'sanity'" % draw(st.sampled_from(INTS))
     if k == 20 and draw(st.booleans()):
         return draw(st.sampled_from([
             "print(typed.__annotations__['count'].__name__, typed(2, 'ab'))",
-            "i2: int = len(typed.__annotations__)",
+            "ann_n: int = len(typed.__annotations__)\nprint(ann_n)",
             "from dataclasses import dataclass, fields\n@dataclass\nclass Rec:\n    x: int\n    y: str = 'a'\nprint([f.type.__name__ for f in fields(Rec)], Rec(1))",
             "def local_typed(n: int = 3) -> list:\n    return [n]\nprint(local_typed.__annotations__['return'] is list, local_typed())",
-            "s1: str = typed(1)"]))
+            "ann_s: str = typed(1)\nprint(ann_s)"]))
+    if k == 20:
+        return "assert isinstance(%s, int), 'sanity'" % draw(st.sampled_from(INTS))
     if k == 21 and not in_loop and draw(st.booleans()):
         return draw(st.sampled_from(["if __name__ == '__main__':\n    print('running as main')", 'print(__name__)', 's1 = __name__']))
     if k == 21:
@@ -349,7 +368,7 @@ def statement(draw, depth=2, in_loop=False, allow_input=True):
     if k == 28:
         fname = draw(st.sampled_from(['g0', 'g1']))
         fbody = body(in_loop=False)
-        return 'def %s(a, b=1):\n    global i0, i1, i2, s0, s1, b0, l0, l1, ls0, d0\n%s\n    return a + b\n%s = %s(%s)' % (fname, _ind(fbody), draw(st.sampled_from(INTS)), fname, draw(int_expr(1)))
+        return 'def %s(a, b=1):\n    global i0, i1, i2, s0, s1, b0, l0, l1, ls0, d0, t0\n%s\n    return a + b\n%s = %s(%s)' % (fname, _ind(fbody), draw(st.sampled_from(INTS)), fname, draw(int_expr(1)))
     if k in (29, 30):
         risky = draw(st.sampled_from(['i0 = i1 // (i2 - i2)', 'i0 = l0[50]', "i0 = d0['nope']", "i0 = int('x')", 'i0 = i1 + 1', 'raise MyError(s0)',
                                       'i0 = int(s0)']))
@@ -383,6 +402,7 @@ def cs1_program(draw, max_statements=12, risk=None, allow_input=True, depth=2):
         's0 = %s' % draw(st.sampled_from(STR_LITS)), 's1 = %s' % draw(st.sampled_from(STR_LITS)), 'b0 = %s' % draw(st.sampled_from(['True', 'False'])),
         'l0 = %s' % draw(st.sampled_from(['[1, 2, 3]', '[]', '[5, -1]', '[4, 4, 2, 9]'])), 'l1 = %s' % draw(st.sampled_from(['[0]', '[7, 8]', '[]'])),
         'ls0 = %s' % draw(st.sampled_from(["['x', 'y']", '[]', "['one']"])), 'd0 = %s' % draw(st.sampled_from(["{'a': 1}", '{}', "{'a': 2, 'b': 5}"])),
+        't0 = %s' % draw(st.sampled_from(['(1, 2)', '()', "('a', 3, 2.5)", '(7,)'])),
     ]
     n = draw(st.integers(1, max_statements))
     stmts = [draw(statement(depth, allow_input=allow_input)) for _ in range(n)]
